@@ -24,7 +24,7 @@ RULE = ("Cases: metafile (tool-made v1/v2/hybrid with any subset of optional fie
 ASSUMPTIONS = [
     "vf/ref/bencode.py strict decoder with byte spans; vf/ref/metafile.py reference encoder for the foreign metafiles",
     "string values for list fields are whitespace-separated lists (documented splitting); clearing `announce` leaves announce-list unconstrained",
-    "top-level `comment` keys are not generated (the tool's comment field is info.comment)",
+    "the tool's comment field is info.comment; a foreign top-level `comment` key must survive every edit that does not clear the comment, and is not judged by one that does",
     "input metafiles are canonical bencoding (C06 is the property about what is written)",
 ]
 FUZZ_RUNS = 40000   # thorough tier: libFuzzer runs per campaign of the coverage-guided stage (vf/fuzz.py)
@@ -63,6 +63,8 @@ def source_strategy(cli_safe_opts=True):
         "url_list": st.one_of(st.none(), edits.url_list()),
         "private": st.booleans(),
         "comment": st.one_of(st.none(), edits.text()),
+        # where most other clients put it: a comment at the top level (the tool's own comment field is info.comment)
+        "top_comment": st.one_of(st.none(), st.none(), edits.text()),
     })
     return st.one_of(own, ref)
 
@@ -92,6 +94,8 @@ def build_source(scr, case):
                 [u.encode() for u in tier] for tier in src.get("more_tiers", [])]
         if src["url_list"]:
             top["url-list"] = [u.encode() for u in src["url_list"]]
+        if src.get("top_comment"):
+            top["comment"] = src["top_comment"].encode()
         info_extra = {k: EXTRA_INFO[k] for k in src["info"]}
         if src["private"]:
             info_extra["private"] = 1
@@ -146,6 +150,10 @@ def run_case(case):
                 cli_without_private = True
             touched.append(frozenset(req["fields"]))
             loose = edits.apply_to_model(model, req)
+            if req["fields"].get("comment", {}).get("op") == "clear" and b"comment" in model:
+                # a cleared comment must be gone from info (where a set comment is written); whether a foreign top-level
+                # comment goes with it is not judged ("the comment field" is ambiguous for that key)
+                loose = set(loose) | {b"comment"}
             try:
                 apply_edit(req, path)
                 m = vmeta.Meta.from_file(path)
